@@ -31,7 +31,12 @@ def main():
         ctx = Ctx(a.cid, data.get("tier", tier), int(data.get("seed", seed)))
         mod.run(ctx)
         sys.exit(ctx.finish_replay(data, a.replay))
-    mod.run(ctx)
+    try:
+        mod.run(ctx)
+    except BaseException as e:      # the driver itself failed on the current tree: that is a finding about the tree, not a pass
+        import traceback
+        ctx.fail("the check's driver could not complete on the current tree: %r" % (e,), dict(traceback=traceback.format_exc()[-3000:]),
+                 kind="driver", tag="driver-crashed")
     sys.exit(ctx.finish())
 
 
